@@ -6,29 +6,37 @@
    wfb f        : every variable's dimension names exist in the file, its shape equals the lengths of
                   those dimensions in order, every listed attribute (variable and file) is retrievable.
    step f o     : what the library does for one public operation (Ok file | Raise).
-   run_region   : 0 iff every operation of the run is inside the domain on which well-formedness is
-                  proved; 1 = eval whose value does not have the shape of the variable whose metadata it
-                  inherits.  The model describes the code AS REPAIRED by fixes/C01-renameDimensions.patch and
-                  fixes/C01-binop-broadcast.patch: renameDimensions and the binary operators need no side
-                  condition any more (they raise or return a well-formed file). *)
+   run_region   : 0 iff every operation of the run is inside the domain on which well-formedness is proved;
+                  1 = eval whose value does not have the shape of the dimensions it inherits (the one remaining defect,
+                  C01-eval-shape; eval_fits is exactly the complement: C01_eval_wf_iff).
+   The model describes /repo as repaired (11f4939, 36db2af, 4e9c4b6, 063f7d3, 4906cdd): every operation other than eval
+   raises or returns a well-formed file without any side condition. *)
 From PNC Require Import Base.Util Model.FileStruct Proofs.FileStructProofs.
 
-(* One step of ANY of the 14 operations, from ANY well-formed file (any number/rank of variables, any
-   dimension table): if it completes, the result is well-formed; if it does not complete it raised (Raise) —
-   there is no third outcome in the model.  The only side condition left (safe_op) concerns eval. *)
+(* One step of ANY of the 14 operations, from ANY well-formed file (any number/rank of variables, any dimension table):
+   if it completes, the result is well-formed; if it does not complete it raised (Raise) — there is no third outcome in the
+   model.  PARTIAL: the only side condition (safe_op) concerns eval, and it is exact (C01_eval_wf_iff). *)
 Theorem C01_step_wf_partial : forall f o f',
   wfb f = true -> safe_op f o = true -> operands_ok o = true -> step f o = Ok f' -> wfb f' = true.
 Proof. exact step_wf. Qed.
 Print Assumptions C01_step_wf_partial.
 
-(* FULL strength for the 13 operations other than eval (reorderDimensions with ANY neworder: a repeated name raises since
-   fixes/C01-reorder-repeated-name.patch; renameDimensions with ANY pairs — swap, self-rename,
-   chains, collisions — and arithmetic with ANY operand included): raises or well-formed, no side condition *)
+(* FULL strength for the 13 operations other than eval (renameDimensions with ANY pairs, arithmetic with ANY operand,
+   reorderDimensions with ANY neworder, ...): raises or well-formed, no side condition *)
 Theorem C01_step_wf_all_but_eval : forall f o f',
   wfb f = true -> (match o with OEval _ _ _ => false | _ => true end) = true -> operands_ok o = true ->
   step f o = Ok f' -> wfb f' = true.
 Proof. exact step_wf_noeval. Qed.
 Print Assumptions C01_step_wf_all_but_eval.
+
+(* eval, characterised EXACTLY: the value is stored with the dimension tuple it inherits (from the first variable operand, or
+   from the assigned key if that variable exists) and the result is well-formed IF AND ONLY IF the value's shape equals the
+   lengths of those dimensions.  Elementwise expressions on the largest variable fit; reductions, indexing and a smaller first
+   operand do not. *)
+Theorem C01_eval_wf_iff : forall f key e ca f',
+  wfb f = true -> step f (OEval key e ca) = Ok f' -> (wfb f' = true <-> eval_fits f key e ca = true).
+Proof. exact eval_wf_iff. Qed.
+Print Assumptions C01_eval_wf_iff.
 
 (* COMPLETION clause for applyAlongDimensions, full strength on its documented domain (apply_dom): every named
    dimension exists, every func1d is a total 1-D function (string reducer, array-returning callable, scalar-returning
@@ -80,14 +88,16 @@ Theorem C01_rename_lookup : forall T prs T2,
 Proof. exact rename_dim_lookup. Qed.
 Print Assumptions C01_rename_lookup.
 
-(* ---- the FULL statement (no side condition) is false of the faithful model ------------------------- *)
+(* ---- witness files ----------------------------------------------------------------------------------- *)
 Definition f_tyx : file :=
   File [(4, (2, true)); (5, (3, false)); (6, (4, false))]
        [(11, Var [4; 5; 6] [2; 3; 4] [(0, true)]); (6, Var [6] [4] [(0, true)])] [] [].
 
-(* eval('N = A[0]'): the value keeps A's three dimension names but has rank 2 *)
+(* ---- the FULL statement (no side condition) is false of the faithful model: eval ------------------------------- *)
+(* eval('N = A[0]') (same structure as A.mean(0)): the value keeps A's three dimension names but has rank 2 *)
 Theorem C01_eval_index_refuted : exists f f',
-  wfb f = true /\ step f (OEval 16 (EIndex 11) false) = Ok f' /\ wfb f' = false.
+  wfb f = true /\ step f (OEval 16 (EIndex 11) false) = Ok f' /\ wfb f' = false
+  /\ eval_fits f 16 (EIndex 11) false = false.
 Proof. exists f_tyx. eexists. vm_compute. repeat split; reflexivity. Qed.
 Print Assumptions C01_eval_index_refuted.
 
@@ -96,6 +106,12 @@ Theorem C01_eval_broadcast_refuted : exists f f',
   wfb f = true /\ step f (OEval 16 (EBin 6 11) false) = Ok f' /\ wfb f' = false.
 Proof. exists f_tyx. eexists. vm_compute. repeat split; reflexivity. Qed.
 Print Assumptions C01_eval_broadcast_refuted.
+
+(* hence the invariant over arbitrary sequences is refuted as well *)
+Theorem C01_run_wf_refuted : exists f ops f',
+  wfb f = true /\ forallb operands_ok ops = true /\ run f ops = Ok f' /\ wfb f' = false.
+Proof. exists f_tyx, [OCopy; OEval 16 (EIndex 11) true]. eexists. vm_compute. repeat split; reflexivity. Qed.
+Print Assumptions C01_run_wf_refuted.
 
 (* the side condition of the unlimited-flag theorem is necessary: a file that already has an unlimited dimension called
    POINTS (name 3), sliced with two index arrays *)
@@ -106,12 +122,6 @@ Theorem C01_slice_points_refuted : exists f ss f',
   /\ unlim_kept_op (OSlice ss) (fdims f) (fdims f') = false.
 Proof. exists f_points, [(5, SList [0; 1]%Z); (6, SList [1; 2]%Z)]. eexists. vm_compute. repeat split; reflexivity. Qed.
 Print Assumptions C01_slice_points_refuted.
-
-(* hence the invariant over arbitrary sequences is refuted as well *)
-Theorem C01_run_wf_refuted : exists f ops f',
-  wfb f = true /\ forallb operands_ok ops = true /\ run f ops = Ok f' /\ wfb f' = false.
-Proof. exists f_tyx, [OCopy; OEval 16 (EIndex 11) true]. eexists. vm_compute. repeat split; reflexivity. Qed.
-Print Assumptions C01_run_wf_refuted.
 
 (* ---- the repaired operations on the former witnesses (evaluation of the model) --------------------------- *)
 Definition f_t1 : file := File [(4, (1, true)); (6, (3, false))] [(11, Var [4; 6] [1; 3] [(0, true)])] [] [].
@@ -142,6 +152,13 @@ Example C01_reorder_repeated_repaired :
   wfb f_syy = true /\ step f_syy (OReorder [5; 5; 7]) = Raise /\ step f_syy (OReorder [5; 7]) = Raise
   /\ exists f', step f_tyx (OReorder [6; 4; 5]) = Ok f' /\ lookup 11 (fvars f') = Some (Var [6; 4; 5] [4; 2; 3] [(0, true)]).
 Proof. vm_compute. repeat split; try reflexivity. eexists. split; reflexivity. Qed.
+
+(* evals inside the proved domain *)
+Example C01_eval_fits_examples :
+  eval_fits f_tyx 16 (EBin 11 6) true = true /\ eval_fits f_tyx 16 (EScale 6) false = true
+  /\ (exists f', step f_tyx (OEval 16 (EBin 11 6) true) = Ok f'    (* N = A + x *)
+                 /\ wfb f' = true /\ lookup 16 (fvars f') = Some (Var [4; 5; 6] [2; 3; 4] [(0, true)])).
+Proof. vm_compute. repeat split; try reflexivity. eexists. repeat split; reflexivity. Qed.
 
 (* ---- non-vacuity ------------------------------------------------------------------------------------ *)
 (* a six-step run inside the proved domain that really changes the structure: slice with two index arrays
